@@ -353,6 +353,16 @@ enum Svc {
     Timed(Timeout<PoolSvc, ClientError>),
 }
 
+impl Svc {
+    /// A second handle onto the same pool (what `Client` does for every request).
+    fn another_handle(&self) -> Svc {
+        match self {
+            Svc::Plain(s) => Svc::Plain(s.clone()),
+            Svc::Timed(s) => Svc::Timed(s.clone()),
+        }
+    }
+}
+
 fn timeout_error() -> ClientError {
     ClientError::RequestTimeout
 }
@@ -361,6 +371,9 @@ struct Run<'a> {
     case: &'a PoolCase,
     w: W,
     svc: Option<Svc>,
+    /// a clone of `svc`: odd-numbered requests go through it, so that state which must be shared
+    /// between handles (key table, idle lists, waiters) is exercised across handles
+    svc2: Option<Svc>,
     reqs: Vec<ReqSlot>,
     out: Outcome,
     sig: Digest,
@@ -800,6 +813,7 @@ impl<'a> Run<'a> {
                 }
                 let waiting = self.reqs.iter().filter(|r| r.state == RState::Pending).count();
                 self.svc = None;
+                self.svc2 = None;
                 self.service_dropped = true;
                 self.out.count("fault.drop_service");
                 if waiting > 0 {
@@ -970,7 +984,7 @@ impl<'a> Run<'a> {
             self.out.count("probe.issue_while_h2_attempt_in_flight");
         }
         let waker = Arc::new(FlagWaker { woken: AtomicBool::new(false), count: AtomicU32::new(0) });
-        let svc = self.svc.as_mut().unwrap();
+        let svc = if req % 2 == 1 && self.svc2.is_some() { self.svc2.as_mut().unwrap() } else { self.svc.as_mut().unwrap() };
         let called = catch_unwind(AssertUnwindSafe(|| -> BoxFut {
             match svc {
                 Svc::Plain(s) => Box::pin(s.call(request)),
@@ -1850,10 +1864,12 @@ impl PoolSim {
                 Some(d) => Svc::Timed(Timeout::new(pool_svc, Duration::from_millis(d), Box::new(timeout_error as fn() -> ClientError))),
                 None => Svc::Plain(pool_svc),
             };
+            let svc2 = svc.another_handle();
             let mut run = Run {
                 case,
                 w,
                 svc: Some(svc),
+                svc2: Some(svc2),
                 reqs: vec![],
                 out: Outcome::default(),
                 sig: Digest::default(),
